@@ -21,6 +21,7 @@ structure DSt where
   finReq : List Nat      -- instances asked to return (or returning at once)
   evs : List Ev          -- implementation log, newest first
   nextCall : Nat
+  obs : Bool := false    -- `obs on`: every answer of a sequential case is followed by the observable state
 
 def DSt.init : DSt := { seq := false, s := Hive.Daemon.init, finReq := [], evs := [], nextCall := 1000 }
 
@@ -189,14 +190,25 @@ def doOp (d : DSt) : List String → DSt × String
     ({ d with s := quiesce 10000 s1 d.finReq, nextCall := d.nextCall + 1 }, if ok then "ok" else "timeout")
   | ["seenlog"] => (d, showSeen d.s)
   | ["end"] => (d, "ok")
+  | ["obs", "on"] => ({ d with obs := true }, "ok")
   | _ => (d, "bad-op")
+
+/-- What is observable of the daemon between two calls: `GetRunningBackgroundWorkers`, `IsRunning`, `IsStopped`. -/
+def showState (s : St) : String :=
+  showWorkers s ++ " " ++ showBool s.running ++ " " ++ showBool s.stopped
+
+/-- A sequential op; with `obs on` the answer is followed by the state after the op (so that model and implementation
+are compared after *every* operation, not only where the script asks). -/
+def doOpObs (d : DSt) (toks : List String) : DSt × String :=
+  let (d', a) := doOp d toks
+  if d'.obs && toks != ["end"] then (d', a ++ " | " ++ showState d'.s) else (d', a)
 
 def stepLine (d : DSt) (toks : List String) : DSt × String :=
   match toks with
   | ["mode", "seq"] => ({ d with seq := true }, "ok")
   | ["mode", _] => ({ d with seq := false }, "ok")
   | "op" :: _ => (d, "-")
-  | "do" :: rest => if d.seq then doOp d rest else (d, "bad-op")
+  | "do" :: rest => if d.seq then doOpObs d rest else (d, "bad-op")
   | "ev" :: rest =>
     match parseEv rest with
     | some e => ({ d with evs := e :: d.evs }, "ok")
